@@ -39,8 +39,9 @@ ASSUMPTIONS = [
     "raw float('nan') leaves are not generated (the NaN node is the supported spelling)",
     "T-mode explores interleavings at line (optionally opcode) granularity under the GIL; "
     "torn writes inside one bytecode are out of reach without free-threaded CPython",
-    "under python -O rebinding ops are not generated (the statement limits raising to the "
-    "default interpreter mode)",
+    "under python -O the ops that expect a rebinding to be refused are not generated (the "
+    "statement limits raising to the default interpreter mode); rebinding a field of a *copy* "
+    "is, there as in the default mode: the original must stay what it was",
     "field values honour Python's own contract (a == b implies hash(a) == hash(b)): no numpy "
     "dtype next to the scalar type it equals, no np.float64(2**53) next to 2**53+1 -- for such "
     "leaves the generated __eq__ (hash first) already answers False on the unchanged tree",
